@@ -87,7 +87,8 @@ def gen_program(rng):
                 n = rng.choice([unit, unit, unit, 2 * unit, 1, 3, 4, 8])
                 n = max(1, min(n, 48))
                 bits = "".join(rng.choice("01") for _ in range(n))
-                lines.append("#d%d 0b%s" % (n, bits))
+                # the same bits emitted by a data directive or by an instruction of the rule set below
+                lines.append(("#d%d 0b%s" if rng.random() < 0.65 else "i%d 0b%s") % (n, bits))
                 items.append("e" + bits)
             elif r < 0.55:
                 i = len(lines)
@@ -150,7 +151,8 @@ def gen_program(rng):
     bank_field = ",".join("%d:%d:%s:%s:%s:%d" % (b["addr"], b["unit"], "-" if b["la"] is None else b["la"],
                                                  "-" if b["size"] is None else b["size"] * b["unit"],
                                                  "-" if b["outp"] is None else b["outp"], 1 if b["fill"] else 0) for b in banks) or "-"
-    return "\n".join(lines) + "\n", "lay %s %s" % (bank_field, ",".join(items) or "-"), banks, items
+    rules = "#ruledef\n{\n" + "".join("    i%d {x} => x`%d\n" % (n, n) for n in range(1, 49)) + "}\n"
+    return rules + "\n".join(lines) + "\n", "lay %s %s" % (bank_field, ",".join(items) or "-"), banks, items
 
 
 def layout_oracle(ans, banks, items):
@@ -260,6 +262,14 @@ def run(chk):
             if sum(1 for i in items if i[0] == "e") >= 2:
                 chk.nontriv(text)
             bad = layout_oracle(a, banks, items)
+            # "using the default bank after defining banks is rejected": an emitting item before the first bank switch
+            if banks:
+                for it in items:
+                    if it[0] == "b":
+                        break
+                    if it[0] == "e":
+                        bad.append("an item is emitted in the default bank although banks are defined, and the program was accepted")
+                        break
             if bad:
                 chk.violate("layout invariant broken", {"program": text}, "C06 layout statement", "; ".join(bad[:4]))
     for j in (0, len(progs) // 2):
